@@ -365,13 +365,21 @@ def check_guards(ctx, rid, prop):
         prof = 'rel' if str(getattr(F, 'config', '')).endswith('-rel') else 'dbg'
         want = sorted(sorted(x) for x in e['sites'][prof])
         # every reviewed site (as its multiset of controlling terms) must still exist; additional sites are new behaviour, not a violation
-        pool = [tuple(x) for x in got]
+        # (a site may acquire further controlling tests — e.g. a new early error exit above it — without violating anything:
+        #  the reviewed terms must be included in the site's terms)
+        pool = [collections.Counter(x) for x in got]
         ok = True
-        for w in want:
-            if tuple(w) in pool:
-                pool.remove(tuple(w))
-            else:
+        for w in sorted(want, key=lambda x: -len(x)):
+            cw = collections.Counter(w)
+            hit = None
+            for k, g in enumerate(pool):
+                if not (cw - g):
+                    if hit is None or sum(g.values()) < sum(pool[hit].values()):
+                        hit = k
+            if hit is None:
                 ok = False
+            else:
+                pool.pop(hit)
         if not ok:
             # a test moved into a small helper: compare the flattened atom sets, looking through helpers that are not
             # themselves reviewed atoms (the per-switch structure is lost across the helper boundary)
